@@ -64,6 +64,10 @@ Definition kcall (dbl : bool) (k : cchar) : call :=
   | KOct ds => (CAddOctalCharacter, ds)
   end.
 
+(** digit values *)
+Definition hexval (c : rune) : Z := if (48 <=? c) && (c <=? 57) then c - 48 else if (97 <=? c) && (c <=? 102) then c - 87 else c - 55.
+Definition octval (c : rune) : Z := c - 48.
+
 Section Chars.
 Variable buf : list rune.
 Variable penv : nat -> nat -> bool.
